@@ -81,6 +81,7 @@ def explore(run, hyps=(), max_paths=3000, feas_timeout_ms=1500, time_budget_s=No
     (deterministically named) and return the value to be judged; it may return a tuple
     (value, extra).  Exceptions raised by the code under verification are path results."""
     c = Ctx(hyps, feas_timeout_ms=feas_timeout_ms, max_paths=max_paths)
+    c.exploring = True
     prev = Ctx.cur
     Ctx.cur = c
     paths, unsupported, dead = [], [], []
@@ -89,8 +90,9 @@ def explore(run, hyps=(), max_paths=3000, feas_timeout_ms=1500, time_budget_s=No
     t0 = time.time()
     try:
         while c.work:
-            if len(paths) >= max_paths or (time_budget_s and time.time() - t0 > time_budget_s):
+            if len(paths) >= max_paths or (time_budget_s and time.time() - t0 > time_budget_s) or (DEADLINE[0] is not None and time.time() > DEADLINE[0]):
                 complete = False
+                unsupported.append("time budget of this section exhausted during path exploration")
                 break
             c.reset_path(c.work.pop())
             try:
